@@ -167,6 +167,12 @@ def trait_case(cid, rng, inversion):
     else:
         L.append("pub struct Target;")
         L.append("#[::entrait::entrait] /*@impl*/")
+        # attributes below entrait on the block: they stay on the user's (inherent) block, once - also a foreign macro that
+        # happens to be called `automock`, a name entrait classifies
+        battrs = rng.sample(["/// block docs", "#[allow(dead_code)]", "#[::vattr::mark(%s_b)]" % cid, "#[::vattr::automock(%s_b)]" % cid, "#[doc(hidden)]"], rng.randint(0, 2))
+        if sum("vattr" in a for a in battrs) == 2:
+            battrs = battrs[:1]
+        L += battrs
         L.append("impl TrImpl for Target {")
         for name, cfg, extra in ms:
             if cfg:
@@ -184,7 +190,8 @@ def trait_case(cid, rng, inversion):
     D.append("}")
     meta = {"family": "trait-inversion" if inversion else "trait", "methods": ms, "enabled": [m[0] for m in enabled],
             "nontrivial": any(m[1] for m in ms) or bool(tattrs), "marks": [], "trait_attrs": tattrs,
-            "trait_mark": ("%s_t" % cid) if any("vattr" in a for a in tattrs) else None}
+            "trait_mark": ("%s_t" % cid) if any("vattr" in a for a in tattrs) else None,
+            "block_mark": ("%s_b" % cid) if inversion and any("vattr" in a for a in battrs) else None}
     return Case(cid, "\n".join(L + D) + "\n", meta=meta)
 
 
@@ -282,6 +289,13 @@ def check_case(c, rep, vlog):
             hits = [v for v in vlog if tok.render(v["attr"]) == m["trait_mark"]]
             if len(hits) != 1:
                 rep.violation(c.id, "foreign-macro-ran:%d" % len(hits), "#[vattr::mark(%s)] on the trait ran %d times, expected exactly once" % (m["trait_mark"], len(hits)))
+            else:
+                rep.bump("foreign_macro_witnesses")
+        if m.get("block_mark"):
+            # the foreign macro on the impl block runs on what entrait emits for the user's block: exactly once
+            hits = [v for v in vlog if tok.render(v["attr"]) == m["block_mark"]]
+            if len(hits) != 1:
+                rep.violation(c.id, "foreign-macro-ran:block:%d" % len(hits), "the foreign attribute (%s) on the impl block ran %d times, expected exactly once" % (m["block_mark"], len(hits)))
             else:
                 rep.bump("foreign_macro_witnesses")
         for it in items[1:]:
